@@ -62,6 +62,7 @@ type Link struct {
 	joins     int64
 	followerG int64
 	leaderG   int64
+	delayUS   int64 // artificial delay per delivered entry (slow follower)
 }
 
 // Cluster is a set of leaders and followers wired in-process.
@@ -74,6 +75,7 @@ type Cluster struct {
 	mx        sync.Mutex
 	closed    int32
 	joinsByL  map[string]int64
+	joinMx    sync.Mutex // serialises Follow calls (see runLink)
 }
 
 func (c *Cluster) ntables() int {
@@ -160,6 +162,7 @@ func (c *Cluster) StartFollower(n *Node) error {
 				c.mx.Lock()
 				if old := n.links[source]; old != nil {
 					lk.cut = old.cut
+					lk.delayUS = atomic.LoadInt64(&old.delayUS)
 				}
 				n.links[source] = lk
 				c.mx.Unlock()
@@ -237,6 +240,16 @@ func (c *Cluster) runLink(lk *Link) {
 			time.Sleep(500 * time.Microsecond)
 			continue
 		}
+		// One Follow call at a time, and the next one only after the leader has
+		// processed this one: a leader keeps one registration per follower id and
+		// the latest join wins, so a Follow call of a stopped incarnation must not
+		// be able to overtake the one of its successor (in a real deployment the
+		// old process is gone before the new one dials).
+		c.joinMx.Lock()
+		if atomic.LoadInt32(&c.closed) == 1 || atomic.LoadInt64(&lk.follower.gen) != lk.followerG || atomic.LoadInt32(&leader.up) == 0 {
+			c.joinMx.Unlock()
+			continue
+		}
 		lk.mx.Lock()
 		lk.gen++
 		gen := lk.gen
@@ -247,7 +260,9 @@ func (c *Cluster) runLink(lk *Link) {
 		lk.mx.Unlock()
 		c.mx.Lock()
 		c.joinsByL[fmt.Sprintf("%d/%d", leader.ID, lgen)]++
+		issued := c.joinsByL[fmt.Sprintf("%d/%d", leader.ID, lgen)]
 		c.mx.Unlock()
+		lz := leader.Z
 		done := make(chan struct{})
 		broken := make(chan struct{}, 1)
 		go func() {
@@ -262,6 +277,9 @@ func (c *Cluster) runLink(lk *Link) {
 				if stale {
 					err = errLinkDown
 				} else {
+					if d := atomic.LoadInt64(&lk.delayUS); d > 0 {
+						time.Sleep(time.Duration(d) * time.Microsecond)
+					}
 					err = lk.insert(data, offset, lk.leaderID)
 				}
 				lk.mx.Lock()
@@ -282,6 +300,13 @@ func (c *Cluster) runLink(lk *Link) {
 				return err
 			})
 		}()
+		for joinDeadline := time.Now().Add(5 * time.Second); time.Now().Before(joinDeadline); {
+			if lz.VerifLeader().Joins >= issued || atomic.LoadInt64(&leader.gen) != lgen || atomic.LoadInt32(&c.closed) == 1 {
+				break
+			}
+			time.Sleep(100 * time.Microsecond)
+		}
+		c.joinMx.Unlock()
 		// wait until the connection breaks (error from the callback), the leader
 		// or follower incarnation changes, or the link is cut
 	wait:
@@ -559,4 +584,13 @@ func (n *Node) Query(sql string, o QueryOpts) (*Result, error) {
 		return nil, err
 	}
 	return RunSource(src, o)
+}
+
+// Delay makes the follower slow: every entry a leader delivers to it waits.
+func (c *Cluster) Delay(f *Node, us int64) {
+	c.mx.Lock()
+	defer c.mx.Unlock()
+	for _, lk := range f.links {
+		atomic.StoreInt64(&lk.delayUS, us)
+	}
 }
